@@ -12,7 +12,9 @@
 (* service resolves settings from SIX entry points, which main.go wires to different callers:        *)
 (*                                                                                                  *)
 (*   "round"    the registration job (generateValidatorRegistrationsForAccount): every account that  *)
-(*              the account manager lists as validating in the next epoch, WITH the account          *)
+(*              the account manager lists as validating in the next epoch, WITH the account; its     *)
+(*              sibling implementation is the exported SubmitValidatorRegistrations(accounts) of     *)
+(*              blockrelay.ValidatorRegistrationsSubmitter (RoundVias: "job" | "api")                *)
 (*   "prep"     the proposal preparer (its ExecutionConfigProvider IS the block relay service):      *)
 (*              the same listing, ProposerConfig(account, pubkey)                                    *)
 (*   "fwd"      ValidatorRegistrations: a beacon node forwards a registration of a validator that    *)
@@ -195,17 +197,20 @@ Activate(v, route) ==
 \* ---- the entry points: what they let the outside see is `told` ----
 \* registration round: told = [v \in vs |-> registrations <<relay, fee, gas>> received by the relays], all validly
 \* signed (sig), nodes = the <<v, fee, gas>> the secondary beacon nodes received
-RecRound(vs, told, sig, nodes) ==
+\* via: the job (which does nothing when no account is listed) or the exported method handed the listed accounts
+RoundVias == {"job", "api"}
+RecRound(via, vs, told, sig, nodes) ==
+    /\ via \in RoundVias
     /\ vs = Active
-    /\ last' = [k |-> "round", d |-> force, vs |-> vs, told |-> told, sig |-> sig, nodes |-> nodes]
-    /\ controlled' = IF vs = {} THEN controlled ELSE vs
+    /\ last' = [k |-> "round", via |-> via, d |-> force, vs |-> vs, told |-> told, sig |-> sig, nodes |-> nodes]
+    /\ controlled' = IF vs = {} /\ via = "job" THEN controlled ELSE vs
     /\ memo' = Remember({<<v, TRUE>> : v \in vs})
     /\ UNCHANGED <<force, st>>
 
-DoRound ==
+DoRound(via) ==
     /\ "round" \in Kinds
     /\ LET told == [v \in Active |-> Answer(v, TRUE).regs] IN
-       RecRound(Active, told, TRUE, UNION {{<<v, t[2], t[3]>> : t \in told[v]} : v \in Active})
+       RecRound(via, Active, told, TRUE, UNION {{<<v, t[2], t[3]>> : t \in told[v]} : v \in Active})
 
 \* preparation: told = the <<node, v, fee>> the nodes received
 RecPrep(vs, told) ==
@@ -244,7 +249,7 @@ Next ==
     \/ \E d \in DocIds : DoFetch(d)
     \/ FetchFails
     \/ \E v \in Vals, route \in Routes : Activate(v, route)
-    \/ DoRound \/ DoPrep
+    \/ (\E via \in RoundVias : DoRound(via)) \/ DoPrep
     \/ \E v \in Vals : DoFwd(v) \/ DoUnblind(v) \/ DoAuction(v) \/ DoBid(v)
 
 Spec == Init /\ [][Next]_vars
